@@ -333,11 +333,29 @@ def d4(ctx, prog):
         raise AnalysisError('preprocess decorator: inner wrapper not found')
     from .. import inline
     g = inline.inlined(prog, inner[0])
-    tests = [norm(n.test).replace(' ', '') for n in ast.walk(g.node) if isinstance(n, ast.If) and any(isinstance(b, ast.Raise) for b in n.body)]
     p = g.params[0]
-    want = {f'{p}.ndim!=2': 'refuses non 2-D input', 'result.ndim!=2': 'refuses non 2-D output', f'result.shape[0]!={p}.shape[0]': 'refuses a changed number of traces'}
-    for t, what in want.items():
-        ctx.check(t in tests, 'C18-D4', f'{g.key}::{what}', f'the preprocess decorator no longer {what} (`{t}` missing)', what, g.where())
+    # every path that returns a value does so under: input 2-D, output 2-D, output rows = input rows (whatever the shape of the
+    # refusals: guard clauses, an if/elif chain with one raise site, ...)
+    from .. import normalize
+    paths = astutil.return_paths(g.node)
+    rpaths = [(normalize.conjuncts(gs), e) for gs, e in (paths or []) if e is not None]
+    R = f'function({p})'
+    want = {'refuses non 2-D input': (f'{p}.ndim', '2'), 'refuses non 2-D output': (f'{R}.ndim', '2'), 'refuses a changed number of traces': (f'{R}.shape[0]', f'{p}.shape[0]')}
+
+    def holds(conj, lhs, rhs):
+        for t, pol in conj:
+            if isinstance(t, ast.Compare) and len(t.ops) == 1:
+                a, b = norm(t.left).replace(' ', ''), norm(t.comparators[0]).replace(' ', '')
+                if {a, b} == {lhs, rhs} and ((isinstance(t.ops[0], ast.NotEq) and not pol) or (isinstance(t.ops[0], ast.Eq) and pol)):
+                    return True
+        return False
+    if not rpaths:
+        ctx.undecided('C18-D4', f'{g.key}::return paths', 'the paths on which the wrapper returns were not derived', g.where())
+    for what, (lhs, rhs) in want.items():
+        if rpaths:
+            ctx.check(all(holds(c_, lhs, rhs) for c_, e_ in rpaths), 'C18-D4', f'{g.key}::{what}', f'the preprocess decorator no longer {what} (a returning path is not conditional on `{lhs} == {rhs}`)', what, g.where())
+    if rpaths:
+        ctx.check(all(norm(e_) == R for c_, e_ in rpaths), 'C18-D4', f'{g.key}::returns the result', 'the wrapper returns something else than what the wrapped function returned', 'the wrapper returns the function result', g.where())
     calls = [c for c in ast.walk(g.node) if isinstance(c, ast.Call) and isinstance(c.func, ast.Name) and c.func.id == 'function']
     ctx.check(len(calls) == 1 and [norm(a) for a in calls[0].args] == [p], 'C18-D4', f'{g.key}::calls function', 'the wrapped function is not called exactly once with the traces',
               'wrapped function called once with the traces', g.where())
@@ -436,12 +454,16 @@ def d6(ctx, prog):
         raise AnalysisError('_CombinationOfTwoFrames.__call__/_set_frames not found')
     # the flag: a self attribute tested in __call__ to choose the slice `[:, i:]` (triangular) versus the whole second chunk
     flags = set()
+    ldefs = astutil.local_defs(call.node)
+
+    def triangular(nodes):
+        return any(isinstance(s, ast.Subscript) and isinstance(s.slice, ast.Tuple) and len(s.slice.elts) == 2 and isinstance(s.slice.elts[1], ast.Slice)
+                   and s.slice.elts[1].lower is not None and s.slice.elts[1].upper is None for b in nodes for s in ast.walk(b))
     for n in ast.walk(call.node):
-        if isinstance(n, ast.If):
-            tri = any(isinstance(s, ast.Subscript) and isinstance(s.slice, ast.Tuple) and len(s.slice.elts) == 2 and isinstance(s.slice.elts[1], ast.Slice)
-                      and s.slice.elts[1].lower is not None and s.slice.elts[1].upper is None for b in n.body + n.orelse for s in ast.walk(b))
-            if tri:
-                flags |= astutil.self_attrs_read(n.test)
+        if isinstance(n, ast.If) and triangular(n.body + n.orelse):
+            flags |= astutil.self_attrs_read(astutil.expand_locals(n.test, ldefs))
+        elif isinstance(n, ast.IfExp) and triangular([n.body, n.orelse]):
+            flags |= astutil.self_attrs_read(astutil.expand_locals(n.test, ldefs))
     key = f'{ci.key}::pair-set switch'
     if len(flags) != 1:
         ctx.undecided('C18-D6', key, f'the switch between triangular and full pair enumeration was not identified (candidates {sorted(flags)})', call.where())
@@ -488,4 +510,4 @@ def run(ctx, prog):
     ctx.rule('C18-D6', 'the switch between the one-frame pair set (i <= j) and frame_1 x frame_2 is the None-test of the caller\'s frame_2 argument, taken before defaulting')
     d6(ctx, prog)
     ctx.floor('preprocess entry points', len(eps), 20)
-    ctx.floor('promotion dtype computations', n2, 9)
+    ctx.floor('promotion dtype computations', n2, 5)
